@@ -28,7 +28,7 @@
 #include <vector>
 #include <unistd.h>
 
-extern "C" void __sanitizer_set_death_callback(void (*)(void));
+extern "C" void __sanitizer_set_death_callback(void (*)(void)) __attribute__((weak));
 
 namespace vp {
 
@@ -291,7 +291,7 @@ inline int main_(int argc, char **argv, const Harness &h) {
         else if (k == "--exclude") { for (auto &e : split(val(), ',')) a.exclude.insert(e); }
         else { fprintf(stderr, "unknown argument %s\n", k.c_str()); return 9; }
     }
-    __sanitizer_set_death_callback(death_cb);
+    if (__sanitizer_set_death_callback) __sanitizer_set_death_callback(death_cb);
     signal(SIGALRM, sig_cb);
     if (!a.replay.empty()) {
         std::string text = strip_comments(read_file(a.replay));
